@@ -1,4 +1,5 @@
 import PGM.Proofs.JTree
+import PGM.Proofs.JTWeight
 /-!
 # C12 — every constructed junction tree is valid, with a valid message schedule
 
@@ -45,6 +46,28 @@ theorem makeGraph_complete (attrs : List Attr) (cliques : List Clique) (c : Cliq
     (a b : Attr) (ha : a ∈ c) (hb : b ∈ c) (hab : a ≠ b) (hsub : ∀ x ∈ c, x ∈ attrs) :
     (makeGraph attrs cliques).adj a b = true :=
   JT.makeGraph_complete attrs cliques c hc a b ha hb hab hsub
+
+/-- **weight bound**: for any spanning tree over any family of cliques,
+`Σ_edges |separator| ≤ Σ_a (n_a − 1)` … -/
+theorem weight_le_bound (attrs : List Attr) (t : Tree) (h : TreeHyp attrs t) :
+    weight t ≤ weightBound attrs t.nodes :=
+  JT.weight_le_bound attrs t h
+
+/-- … with equality exactly when the running-intersection property holds -/
+theorem weight_eq_iff_rip (attrs : List Attr) (t : Tree) (h : TreeHyp attrs t) :
+    weight t = weightBound attrs t.nodes ↔ rip attrs t = true :=
+  JT.weight_eq_iff_rip attrs t h
+
+/-- **every maximum-weight spanning tree is a junction tree** as soon as some spanning tree over
+the same nodes is one — whichever tie-breaking `networkx.minimum_spanning_tree` uses.
+(`_partial`: that the maximal cliques of a chordal graph admit *some* junction tree is the classical
+existence theorem, not formalised; each generated case is decided by `checkJT` on the
+implementation's own tree together with the weight certificate above.) -/
+theorem max_weight_tree_is_jt_partial (attrs : List Attr) (t t' : Tree)
+    (h : TreeHyp attrs t) (h' : TreeHyp attrs t') (hn : t'.nodes = t.nodes)
+    (hrip : rip attrs t' = true) (hw : weight t' ≤ weight t) :
+    rip attrs t = true :=
+  JT.max_weight_tree_is_jt_partial attrs t t' h h' hn hrip hw
 
 /-- non-vacuity: a concrete 3-node tree with its schedule is accepted -/
 example : checkJT ["a", "b", "c", "d"] [["a", "b"], ["b", "c"], ["c", "d"]]
